@@ -127,4 +127,24 @@ def gen(rng, tier):
         for op in UN_I:
             reqs.append("C13 %s %s" % (op, wi(a)))
             reqs.append("C13 %s %s" % (op, wi(-a)))
+    # api-coverage block: `Integer::divides` (deprecated alias with its own body) on multiples, near-multiples,
+    # zero operands (only zero is a multiple of zero), multi-digit divisors, every sign combination
+    dv = []
+    for la in (1, 2, 3, 5) + ((12, 40) if tier == "thorough" else ()):
+        for lb in (1, 2, 3):
+            a, b = big(rng, la), big(rng, lb)
+            k = rng.randrange(1, 1 << 70)
+            dv += [(a * b, b), (a * b, a), (a * b + 1, b), (a * b - 1, a), (b, a * b), (a, a), (a, 0), (0, a), (a * k, a),
+                   (a * k + a - 1, a), ((b << 64) * a, b << 64), (a, b)]
+    dv += [(0, 0), (1, 0), (0, 1), (1, 1), (MAX, 1), (B, 2), (B + 1, 2), (B * B, B), (B * B + 1, B)]
+    for (a, b) in dv:
+        reqs.append("C13 u.divides %s %s" % (wu(a), wu(b)))
+        sa = -a if rng.randrange(2) else a
+        sb_ = -b if rng.randrange(2) else b
+        reqs.append("C13 i.divides %s %s" % (wi(sa), wi(sb_)))
+    for a in (0, 6, B + 2):
+        for b in (0, 3, 4, B + 2):
+            for sa in (a, -a):
+                for sb_ in (b, -b):
+                    reqs.append("C13 i.divides %s %s" % (wi(sa), wi(sb_)))
     return reqs
